@@ -779,6 +779,19 @@ def engine_other_constructions(rep):
         a, b = tm2.offsets(snaps), fresh.offsets(snaps)
         if any(abs(float(x) - float(y)) > 1e-6 for x, y in zip(a, b)):
             rep.fail("queries_follow_in_place_edits", case, f"after bpm[{k}] *= 2 in place: {list(a)} vs a map built from the edited list {list(b)}")
+        # (e) a map made with its own (finer) snapper derives positions with THAT snapper
+        if n >= 2:
+            fine = Snapper(divisions=(128,))
+            pos1 = Fraction(4 * measures[1]) + Fraction(1, 128)
+            t1 = float(_oracle_ms([(Fraction(0), Fraction(repr(bpms[0])))], Fraction(repr(init)), pos1))
+            tm3 = TimingMap(bpm_changes_offset=[BpmChangeOffset(bpms[0], 4, init), BpmChangeOffset(bpms[1], 4, t1)], snapper=fine)
+            sp = tm3.bpm_changes_snap()[1].snap
+            if sp.measure * 4 + sp.beat != pos1:
+                rep.fail("map_uses_its_own_snapper", case, f"change at beat {pos1} (on the 1/128 grid of the map's snapper) is derived at beat {sp.measure * 4 + sp.beat}")
+            else:
+                seated = tm3.reseat()
+                if not any(abs(b.offset - t1) <= 1e-6 for b in seated.bpm_changes_offset):
+                    rep.fail("map_uses_its_own_snapper", case, f"reseat(): the change at {t1} ms is no longer a tempo point: {[b.offset for b in seated.bpm_changes_offset]}")
         # (d) the order in which the allowed divisions are listed does not matter
         x = Fraction(rng.randrange(0, 3 * 160), 160)
         ref = Snapper(divisions=(1, 2, 4, 8, 16)).snap(x)
